@@ -77,6 +77,18 @@ def build(device, desc, loop=None) -> BuiltDb:
                 def bad_write(conn, v):
                     raise ValueError('application write function failed')
                 val = gatt.CharacteristicValue(read=bad_read, write=bad_write)
+            elif c['kind'] == 'raising_async_cb':
+                # the same, failing only once the coroutine runs
+                async def bad_aread(conn, delay=c.get('delay', 0)):
+                    if delay:
+                        await asyncio.sleep(delay)
+                    raise ValueError('application read coroutine failed')
+
+                async def bad_awrite(conn, v, delay=c.get('delay', 0)):
+                    if delay:
+                        await asyncio.sleep(delay)
+                    raise ValueError('application write coroutine failed')
+                val = gatt.CharacteristicValue(read=bad_aread, write=bad_awrite)
             elif c['kind'] == 'sync_cb':
                 val = gatt.CharacteristicValue(read=lambda conn, cell=cell: cell['value'],
                                                write=lambda conn, v, cell=cell: cell.__setitem__('value', bytes(v)))
